@@ -53,12 +53,24 @@ def task_options(ctx, ui="user_interface", builder="create_parsers"):
                 and isinstance(n.targets[0], ast.Name):
             var_task[n.targets[0].id] = n.value.args[0].value
     out = {}
+    incomplete = False
     for n in ast.walk(f.node):
         if isinstance(n, ast.Call) and isinstance(n.func, ast.Name) and n.args and isinstance(n.args[0], ast.Name) \
                 and n.args[0].id in var_task:
             tg = ctx.cg.resolve_callee(f, n.func)
             if len(tg) == 1:
                 out.setdefault(var_task[n.args[0].id], []).extend(options_of_function(ctx.cg.func(tg[0])))
+        elif isinstance(n, ast.Call) and isinstance(n.func, ast.Name) and n.args and not isinstance(n.args[0], (ast.Name, ast.Constant)):
+            # a repository function that adds options receives a parser this analysis cannot name
+            try:
+                tg = ctx.cg.resolve_callee(f, n.func)
+            except Exception:
+                tg = []
+            if len(tg) == 1 and options_of_function(ctx.cg.func(tg[0])):
+                incomplete = True
+    if incomplete:
+        # which parser those options went to is unknown: no task's option list can be trusted to be complete
+        return {}
     return out
 
 
